@@ -193,12 +193,13 @@ class AWorld:
 
     def __init__(self, config=None, coroutine_handlers=True, app_kwargs=None, raise_after_close=True,
                  legacy_disconnect=False, clock=None, loop=None, handler_delay=None,
-                 preempt=False):        # (preempt: threaded world only)
+                 preempt=False, timer_jitter=0.0):      # (preempt: threaded world only)
         import engineio
         self.clock = clock or vclock.reset()
         vclock.patch_engineio_time()
         self.rand = patch_secrets()
         self.loop = loop or VLoop(self.clock)
+        self.loop.jitter = float(timer_jitter or 0.0)
         cfg = dict(config or {})
         cfg.setdefault('logger', SilentLogger())
         self.config = cfg
